@@ -9,7 +9,7 @@ import (
 	"verif/vkit"
 )
 
-var coll = vkit.NewCollector("C14", "TestKillReopen", "1-4 cycles on one SQLite file: a child process (this binary re-executed) runs 1-12 operations (appends with payloads of 0-70000 bytes, SaveOffset for three ids), printing one acknowledgement per completed operation; the parent sends SIGKILL on seeing acknowledgement k (plus a drawn delay of 0-800 us so that the kill lands inside the next operation) or lets it close cleanly after k operations; after each cycle the parent reopens the file and audits it, appends one probe event, and finally reopens 1-4 more times. Oracle: every acknowledged event is present at its acknowledged offset, the log is the acknowledged sequence plus at most the one operation in flight, positions increase without reuse, saved offsets are the last acknowledged (or in-flight) ones, appends after reopening get larger offsets, schema_version keeps one row. Non-trivial = a kill with >=1 acknowledged operation before it and a further cycle after it.")
+var coll = vkit.NewCollector("C14", "TestKillReopen", "1-4 cycles on one SQLite file: a child process (this binary re-executed) runs 1-12 operations (appends with payloads of 0-70000 bytes, SaveOffset for three ids, and Append/SaveOffset calls with an already-cancelled context that must fail and leave nothing behind, often retried), printing one acknowledgement per completed operation; the parent sends SIGKILL on seeing acknowledgement k (plus a drawn delay of 0-800 us so that the kill lands inside the next operation) or lets it close cleanly after k operations; after each cycle the parent reopens the file and audits it, appends one probe event, and finally reopens 1-4 more times. Oracle: every acknowledged event is present at its acknowledged offset, the log is the acknowledged sequence plus at most the one operation in flight, positions increase without reuse, saved offsets are the last acknowledged (or in-flight) ones, appends after reopening get larger offsets, schema_version keeps one row. Non-trivial = a kill with >=1 acknowledged operation before it and a further cycle after it.")
 
 func TestMain(m *testing.M) {
 	if p := os.Getenv("VERIF_C14_CHILD"); p != "" {
